@@ -173,7 +173,8 @@ class ByteFlag(Signature):
     def parse(self, packet):
         super(ByteFlag, self).parse(packet)
         for i in range(0, self.header.length - 1):
-            self.flags = packet[:1]
+            # each further octet carries further flags, not the first octet's again
+            self.flags = packet[0] << (8 * i)
             del packet[:1]
 
 
